@@ -109,7 +109,7 @@ def main():
         rc, keys, err = check(prop, d, f"{kind}-{n}-{prop}")
         new = sorted(keys - basekeys[(prop, base)])
         return prop, kind, n, meta, rc, new, err
-    with ThreadPoolExecutor(max_workers=6) as ex:
+    with ThreadPoolExecutor(max_workers=15) as ex:
         res = list(ex.map(work, jobs))
     bad_b = bad_s = gap_b = gap_s = ok_b = ok_s = 0
     for prop, kind, n, meta, rc, new, err in res:
